@@ -28,6 +28,7 @@ PY_EXC = {0: None, 1: "GenericError", 2: "NoParticles", 3: "Encounter", 4: "Esca
 STATUS_NAMES = {-10: "SINGLE_STEP", -5: "SCREENSHOT_READY", -4: "SCREENSHOT", -3: "PAUSED", -2: "LAST_STEP", -1: "RUNNING",
                 0: "SUCCESS", 1: "GENERIC_ERROR", 2: "NO_PARTICLES", 3: "ENCOUNTER", 4: "ESCAPE", 5: "USER", 6: "SIGINT",
                 7: "COLLISION"}
+GUARD3 = [False]      # the no-progress guard of /repo addb1f3 (error at the top of the next loop pass): model integrateG
 NAN_GUARD = [False]   # does reb_simulation_integrate refuse a NaN target (fixes/C08-nan-target.diff)?  set from the source by run()
 CAP = 400          # in-process step cap per call (heartbeat calls reb_simulation_stop; the model gets the same flag)
 F_COLL, F_USER, F_ESC, F_ENC, F_SIGINT, F_ERR, F_STEPERR = 1, 2, 4, 8, 16, 32, 64
@@ -146,7 +147,7 @@ def model_line(kind, rec, is_bs=False, n_odes=0, fuel=None):
     t, dt, dld, status, steps = rec["pre"]
     beats, flags = rec["beats"], rec["flags"]
     tmax = rec["tmax"]
-    toks = ["I", kind, str(rec["exact"]), d2h(tmax), str((1 if tmax == math.inf else 0) + (2 if NAN_GUARD[0] else 0)), d2h(t), d2h(dt), d2h(dld),
+    toks = ["I", kind, str(rec["exact"]), d2h(tmax), str((1 if tmax == math.inf else 0) + (2 if NAN_GUARD[0] else 0) + (4 if GUARD3[0] else 0)), d2h(t), d2h(dt), d2h(dld),
             str(status),
             str(steps), str(n_odes), "1" if is_bs else "0", str(fuel if fuel is not None else len(beats) + 5), str(len(flags))]
     toks += ["%d:%d" % (m, n) for m, n in flags]
@@ -522,6 +523,9 @@ def run(c):
             c.corr_break("time bookkeeping of integrator %s is '%s' in the source, model runs it as '%s'" % (k, kind, KIND[k]), list(sig))
     c.cov["step_kinds_unrecognised"] = [k for k, v in info["kinds"].items() if v[0] is None]
     has_guard = info["has_progress_guard"]
+    guard_needs = info["guard_needs"]            # 0 no guard; 1 / 2: error inside the 1st / 2nd stalled step; 3: error at the next loop pass
+    GUARD3[0] = guard_needs == 3
+    c.cov["no_progress_guard_needs_stalled_steps"] = guard_needs
     NAN_GUARD[0] = info["has_nan_guard"]
     c.cov["nan_target_check_in_source"] = NAN_GUARD[0]
     c.cov["no_progress_guard_in_source"] = has_guard
@@ -569,13 +573,36 @@ def run(c):
             b = rec["beats"]
             for k in range(1, len(b)):
                 stalled = d2h(b[k][0]) == d2h(b[k - 1][0]) and b[k][4] != 7
+                stalled_before = k >= 2 and d2h(b[k - 1][0]) == d2h(b[k - 2][0]) and d2h(b[k][1]) == d2h(b[k - 1][1])
                 seen = b[k][4] == 1
                 guard_stats["stalled_steps"] += 1 if stalled else 0
                 guard_stats["errors_raised_inside_step"] += 1 if seen else 0
-                if seen != (stalled and has_guard):
+                want_err = stalled and (guard_needs == 1 or (guard_needs == 2 and stalled_before))
+                if guard_needs == 3 and stalled and k < len(b) - 1 and b[k][4] < 0:
+                    # a further step was taken after a stalled one: reb_check_exit said "continue" and the guard did not stop the loop
+                    fails.append(("no-progress-guard", "the loop went on after a step that did not advance the time", 
+                                  dict(integrator=integ, case=tag, boundary=k, t=b[k][0], dt=b[k][1], tmax=rec["tmax"])))
+                    break
+                if seen != want_err:
                     fails.append(("no-progress-guard", "a step that did not advance the time %s" % ("was not stopped by the no-progress guard" if stalled else "— none — was reported as stalled"),
                                   dict(integrator=integ, case=tag, boundary=k, t=b[k][0], dt=b[k][1], status=b[k][4], tmax=rec["tmax"])))
                     break
+            if guard_needs == 3 and rec["ret"] == 1 and rec["tmax"] == rec["tmax"] and not any(m & F_ERR for m, _ in rec["flags"]):
+                if not (len(b) >= 2 and d2h(b[-1][0]) == d2h(b[-2][0])):
+                    fails.append(("no-progress-guard", "GENERIC_ERROR without an error message injected and without a stalled last step",
+                                  dict(integrator=integ, case=tag, tmax=rec["tmax"], t_end=rec["post"][0])))
+        # an error raised by the no-progress guard although the call had reached its target: the contract says "ends within 1e-12 of the
+        # target", not "fails"
+        if rec["ret"] == 1 and rec["beats"] and rec["exact"] == 1 and rec["tmax"] not in (math.inf, -math.inf) \
+                and (rec["beats"][-1][4] == 1 or (len(rec["beats"]) >= 2 and d2h(rec["beats"][-1][0]) == d2h(rec["beats"][-2][0]))) \
+                and not any(m & F_ERR and not m & F_STEPERR for m, _ in rec["flags"]):
+            tol_ = 1e-12 * abs(rec["tmax"]) if 1e-12 * abs(rec["tmax"]) >= 1e-200 else 1e-12
+            cut_step = len(rec["beats"]) >= 2 and d2h(rec["beats"][-1][1]) == d2h(rec["tmax"] - rec["beats"][-2][0])   # the stalled step was the one cut to fit tmax
+            if abs(rec["post"][0] - rec["tmax"]) <= tol_ and cut_step:
+                fails.append(("C08-N5:no-progress-error-on-absorbed-last-step", "integrate() raised 'not making progress' although t is within 1e-12 of tmax "
+                              "(the last, tiny step was absorbed; before the guard this call returned SUCCESS)",
+                              dict(integrator=integ, case=tag, t0=rec["pre"][0], dt=rec["pre"][1], tmax=rec["tmax"], t_end=rec["post"][0],
+                                   status=rec["ret"], steps=rec["post"][4] - rec["pre"][4])))
         lines.append(model_line(KIND[integ], rec, is_bs=is_bs, n_odes=rec["n_odes"]))
         expect.append(expected_answer(rec))
         meta.append((integ, tag, rec))
@@ -693,8 +720,8 @@ def run(c):
             t0 = rng.choice([1, -1]) * rng.uniform(1, 10) * 10 ** e
             tmax = t0 + rng.choice([1, -1]) * abs(dt) * rng.uniform(0.5, 30)
             fam = "emu_large_t"
-        if tmax == t0 or fam == "huge_t":
-            continue
+        if tmax == t0 or fam == "huge_t" or abs(dt) < 4096 * math.ulp(max(abs(t0), abs(tmax))):
+            continue            # (the no-progress guard looks at the raw step of NONE, before the heartbeat rewrites it: no absorbed steps here)
         sg = 1.0 if tmax > t0 else -1.0
         floor = abs(dt) * rng.choice([0.05, 0.2, 0.5])
         orc_rng = rng.fork()
@@ -811,7 +838,7 @@ def run(c):
                     if bad:
                         break
                 if bad is None and rec["ret"] == 1 and len(beats) >= 2 and d2h(beats[-1][0]) == d2h(beats[-2][0]) and \
-                        beats[-1][4] == 1 and has_guard:
+                        (beats[-1][4] == 1 or guard_needs == 3) and has_guard:
                     # the no-progress guard (fixes/C08-absorbed-step-error.diff) turned the endless rejection into an error: that is the repair
                     opt_stats["stopped_by_progress_guard"] = opt_stats.get("stopped_by_progress_guard", 0) + 1
                 elif bad is None and (rec["capped"] or rec["ret"] != 0):
@@ -858,6 +885,8 @@ def run(c):
         for k in range(1, len(sts)):
             sync_stats["steps"] += 1
             sync_stats["synchronized_starts"] += 1 if flags_seen[k] else 0
+            if sts[k] == 1:
+                continue            # the no-progress guard overwrote the status this step ran with
             if bool(flags_seen[k]) != (sts[k] == -2):
                 sync_stats["mismatch"] += 1
                 c.corr_break("reb_check_exit: synchronize event and LAST_STEP disagree (step %d of a WHFast safe_mode=0 run started %s, status during the step %d)"
@@ -989,18 +1018,31 @@ def run(c):
         sim.heartbeat = hb
         sim.exact_finish_time = exact
         out = []
-        th = threading.Thread(target=lambda: out.append(H.clib.reb_simulation_integrate(ctypes.byref(sim), ctypes.c_double(tmax))))
+        th = threading.Thread(target=lambda: out.append(H.clib.reb_simulation_integrate(ctypes.byref(sim), ctypes.c_double(tmax))), daemon=True)
 
         def send(key):
+            # (server.c does fclose(stream); close(childfd) - a double close that can hit a descriptor this process has just opened,
+            #  e.g. our next client socket: retry the request, ignore errors when closing)
             import socket
-            with socket.create_connection(("127.0.0.1", port), timeout=5) as sk:
-                sk.sendall(("GET /keyboard/%d HTTP/1.1\r\nHost: localhost\r\n\r\n" % KEYCODE[key]).encode())
-                sk.settimeout(5)
+            for attempt_no in range(4):
+                sk = None
                 try:
-                    while sk.recv(4096):
-                        pass
+                    sk = socket.create_connection(("127.0.0.1", port), timeout=5)
+                    sk.sendall(("GET /keyboard/%d HTTP/1.1\r\nHost: localhost\r\n\r\n" % KEYCODE[key]).encode())
+                    sk.settimeout(5)
+                    got = sk.recv(4096)
+                    if got:
+                        return True
                 except OSError:
-                    pass
+                    pstats["socket_errors"] = pstats.get("socket_errors", 0) + 1
+                finally:
+                    try:
+                        if sk is not None:
+                            sk.close()
+                    except OSError:
+                        pass
+                time.sleep(0.02)
+            raise Infra("the REBOUND server did not answer the keyboard request")
 
         def wait_blocked(min_steps, timeout=3.0):
             t_end = time.time() + timeout
@@ -1016,41 +1058,50 @@ def run(c):
         episodes = list(episodes)
         want["k"] = episodes[0][0] if episodes else None
         th.start()
-        for ktarget, keys, early in episodes:
-            want["k"] = ktarget
-            if len(beats) - 1 > ktarget:
-                break
-            if not reached.wait(timeout=5.0) or not th.is_alive():
-                break
-            reached.clear()
-            keys = list(keys)
-            send("s")                                   # lands while the integrator sleeps after the heartbeat of boundary ktarget
-            sched.append((ktarget, "pre", "s"))
-            if early and keys:                          # a second key before the integrator has even entered reb_check_exit
-                send(keys[0]); sched.append((ktarget, "pre", keys[0])); keys = keys[1:]
-            time.sleep(0.45)                            # now the integrator is past its sleep: in the wait loop, or gone on
-            for key in keys:
-                if not (th.is_alive() and sim._status == -3):
-                    break
-                b = sim.steps_done - steps0
-                send(key)
-                sched.append((b, "wait", key))
-                if key == "s":
-                    break
-                t_end = time.time() + 2.0               # one step (arrow-down) or up to 51 (page-down), then PAUSED again - or the end
-                while time.time() < t_end and th.is_alive() and not (sim._status == -3 and sim.steps_done - steps0 > b):
-                    time.sleep(0.001)
-                time.sleep(0.01)
-        # never leave the integrator paused
-        t_end = time.time() + 10
-        while th.is_alive() and time.time() < t_end:
-            if sim._status == -3:
-                time.sleep(0.01)
-                if sim._status == -3 and th.is_alive():
-                    b = sim.steps_done - steps0
-                    send("s"); sched.append((b, "wait", "s"))
-                    time.sleep(0.01)
-            time.sleep(0.002)
+        try:
+          for ktarget, keys, early in episodes:
+              want["k"] = ktarget
+              if len(beats) - 1 > ktarget:
+                  break
+              if not reached.wait(timeout=5.0) or not th.is_alive():
+                  break
+              reached.clear()
+              keys = list(keys)
+              send("s")                                   # lands while the integrator sleeps after the heartbeat of boundary ktarget
+              sched.append((ktarget, "pre", "s"))
+              if early and keys:                          # a second key before the integrator has even entered reb_check_exit
+                  send(keys[0]); sched.append((ktarget, "pre", keys[0])); keys = keys[1:]
+              time.sleep(0.45)                            # now the integrator is past its sleep: in the wait loop, or gone on
+              for key in keys:
+                  if not (th.is_alive() and sim._status == -3):
+                      break
+                  b = sim.steps_done - steps0
+                  send(key)
+                  sched.append((b, "wait", key))
+                  if key == "s":
+                      break
+                  t_end = time.time() + 2.0               # one step (arrow-down) or up to 51 (page-down), then PAUSED again - or the end
+                  while time.time() < t_end and th.is_alive() and not (sim._status == -3 and sim.steps_done - steps0 > b):
+                      time.sleep(0.001)
+                  time.sleep(0.01)
+          # never leave the integrator paused
+          t_end = time.time() + 10
+          while th.is_alive() and time.time() < t_end:
+              if sim._status == -3:
+                  time.sleep(0.01)
+                  if sim._status == -3 and th.is_alive():
+                      b = sim.steps_done - steps0
+                      send("s"); sched.append((b, "wait", "s"))
+                      time.sleep(0.01)
+              time.sleep(0.002)
+        except Infra:
+            sim._status = 5          # release the integrator whatever state it is in
+            th.join(timeout=5)
+            try:
+                sim.stop_server()
+            except Exception:
+                pass
+            raise
         th.join(timeout=10)
         try:
             sim.stop_server()
@@ -1087,7 +1138,12 @@ def run(c):
         res = None
         for attempt in range(3):
             port_i += 1
-            res = paused_run(integ, dt0, tmax, exact, episodes, seed, port_base + port_i)
+            try:
+                res = paused_run(integ, dt0, tmax, exact, episodes, seed, port_base + port_i)
+            except Infra:
+                res = None
+                pstats["retries"] += 1
+                continue
             if res is None:
                 pstats["server_unavailable"] += 1
                 break
@@ -1236,7 +1292,7 @@ def run(c):
                  "options:safe_mode0", "options:keep_unsynchronized", "options:whfast_coordinates_kernel_corrector", "options:saba_type",
                  "options:eos_phi", "options:mercurius_L_rcrit", "options:trace_peri", "options:G_softening", "options:janus_scales",
                  "time:reversal_between_calls", "time:step_longer_than_period", "time:huge_t_over_dt", "time:tmax_minus_inf",
-                 "time:nan_target", "time:dt_sign_vs_target_all_integrators",
+                 "time:nan_target", "time:dt_sign_vs_target_all_integrators", "time:second_call_one_ulp_short",
                  "callbacks:pre_post_modifications", "callbacks:additional_forces", "callbacks:python_collision_resolve",
                  "callbacks:heartbeat_edits_status", "callbacks:post_modification_edits_dt",
                  "history:integrator_switch", "history:particles_added_removed", "history:explicit_synchronize",
@@ -1445,6 +1501,32 @@ def run(c):
                 if rec["ret"] != 5 or len(rec["beats"]) != kb + 1 or not all(b2[0] <= b1[0] for b1, b2 in zip(rec["beats"], rec["beats"][1:])):
                     fails.append(("minus-inf-target", "integrate(-inf) does not run backwards until stopped", dict(integrator=integ, status=rec["ret"])))
             attempt("time:tmax_minus_inf", f)
+        # regression of 0a3347a (C08-N5): a second integrate(tmax) with t one ulp short of tmax, exact_finish_time=1, SI-like magnitudes:
+        # the cut step (1 ulp) is absorbed by the half-step time update; reb_check_exit ends the call inside the 1e-12 window: SUCCESS
+        for integ in ["whfast", "leapfrog", "ias15", "sei", "saba", "mercurius"]:
+            for tm_i in range(4):
+                def f(integ=integ, tm_i=tm_i):
+                    rng = c.rng.fork()
+                    # (whether t + dt/2 rounds back to t depends on the parity of the last mantissa bit: random targets, not round numbers)
+                    tm = rng.choice([1, -1]) * rng.uniform(1e8, 2e9)
+                    fwd = rng.choice([True, False])
+                    sim = rebound.Simulation()
+                    sim.integrator = integ
+                    sim.G = 6.674e-11
+                    sim.add(m=1.989e30)
+                    sim.add(m=5.97e24, a=1.496e11, e=0.0167, f=rng.uniform(0, 6.28))
+                    sim.move_to_com()
+                    start_side = -math.inf if fwd else math.inf
+                    sim.t = math.nextafter(tm, start_side)            # where an exact-finish run may legitimately have ended
+                    sim.dt = 8e5 * rng.choice([1, -1])
+                    rec = xcall(integ, sim, tm, 1, "ulp_short_of_tmax", ["time:second_call_one_ulp_short"], user_dt=8e5)
+                    if rec["ret"] != 0 or not abs(rec["post"][0] - tm) <= 1e-12 * abs(tm):
+                        fails.append(("C08-N5:no-progress-error-on-absorbed-last-step",
+                                      "integrate(tmax) called with t one ulp short of tmax (exact_finish_time=1) returned status %s instead of SUCCESS"
+                                      % STATUS_NAMES.get(rec["ret"], rec["ret"]),
+                                      dict(integrator=integ, t=math.nextafter(tm, start_side), tmax=tm, dt=rec["pre"][1], status=rec["ret"],
+                                           t_end=rec["post"][0], steps=rec["post"][4] - rec["pre"][4])))
+                attempt("time:second_call_one_ulp_short", f)
         # NaN target: refused by the argument check (if the source has it) or - finding C08-N4 - an endless backward integration
         for integ in ["leapfrog", "ias15"]:
             def f(integ=integ):
@@ -1515,7 +1597,7 @@ def run(c):
                             return flag
                         return 0
                     rec = xcall(integ, sim, dt * 8.5, rng.choice([0, 1]), "hb_status", ["callbacks:heartbeat_edits_status"], user_dt=dt, conds=cond)
-                    if rec["ret"] != code or len(rec["beats"]) != kb + 1:
+                    if state["n"] > kb and (rec["ret"] != code or len(rec["beats"]) != kb + 1):     # (an adaptive run may be over before kb)
                         fails.append(("status-first-boundary", "status written by the heartbeat is not returned at that boundary",
                                       dict(integrator=integ, written=code, boundary=kb, returned=rec["ret"], heartbeats=len(rec["beats"]))))
                 attempt("callbacks:heartbeat_edits_status", f)
